@@ -23,9 +23,12 @@ def scoped_stream(ctx: fw.Ctx, n_random: int):
         [{"v": '"0"'}, {"x": "1", "v": '"1"'}, {"y": "x"}],
         [{"inherit (pkgs) lib": None, "x": "1"}],
         [{"x": "1"}, {"inherit y": None, "v": "2"}, {"inherit (p) q": None}],
+        # layers with equal contents (shadowing that re-declares the same text) stay distinct layers
+        [{"x": "1"}, {"x": "1"}],
+        [{"x": "1", "v": '"0"'}, {"y": "x"}, {"x": "1", "v": '"0"'}],
     ]
     bodies = ["{ a = 1; }", "{\n  a = 1;\n  x = 5;\n}", "rec {\n  version = v;\n}", "{ }"]
-    names = ["x", "y", "v", "zz", "x.k", "a", "q"]
+    names = ["x", "y", "v", "zz", "x.k", "a", "q", '"a@b"', 'x."@s/t"']
     for wname, wtpl in docs.WRAPPERS:
         for li, layers in enumerate(layer_sets):
             lay = "".join("let\n" + "".join((f"  {k};\n" if v is None else f"  {k} = {v};\n") for k, v in l.items())
@@ -52,7 +55,7 @@ def scoped_stream(ctx: fw.Ctx, n_random: int):
         ops = []
         for _ in range(ctx.rng.randint(1, 6)):
             d = ctx.rng.choice([1, 1, 2, 3])
-            nm = ctx.rng.choice(["x", "y", "v", "version", "a", "zz", "x.k"])
+            nm = ctx.rng.choice(["x", "y", "v", "version", "a", "zz", "x.k", '"u@h"'])
             ops.append(("set", "@" * d + nm, ctx.rng.choice(["7", '"s"', "y"])) if ctx.rng.random() < 0.6
                        else ("rm", "@" * d + nm))
         hists.append(ec.run_real(text, ops, dict(info, stream="random")))
@@ -64,7 +67,7 @@ def scoped_stream(ctx: fw.Ctx, n_random: int):
 
 def run(ctx: fw.Ctx):
     ctx.extra["rule"] = (
-        "documents with 0..3 nested let layers around every wrapper shape (lets directly around the set and lets "
+        "documents with 0..3 nested let layers (also layers with equal contents) around every wrapper shape (lets directly around the set and lets "
         "outside the wrapper), selector depths 1..4, names present in none/one/several layers, set and rm; plus random "
         "scoped histories; non-trivial = a scoped operation that succeeded; oracle = let chain decoded from the OUTPUT CST"
     )
@@ -179,7 +182,7 @@ def observe(ctx: fw.Ctx, hists, count_case: bool = True):
                 continue
             out = r.out
             if not cstread.error_free(out):
-                cause = "let-in-call-argument" if h.info.get("wrapper") in ("call", "call-select", "lambda-call") else "other"
+                cause = "let-in-call-argument" if h.info.get("wrapper") in docs.CALL_WRAPPERS else "other"
                 ctx.fail({"clause": "output-parses", **key, "cause": cause}, {**inp, "output": out},
                          f"{r.op!r} on {r.before_text!r} emitted invalid Nix: {out!r}")
                 continue
